@@ -562,9 +562,9 @@ func runCheck(prop, tier string, only, casesOverride, budgetOverride int) int {
 	// ---- the same cases in two differently started processes ------------------------
 	crossN := 0
 	if crossProcessProps[prop] && only < 0 {
-		n := 96
+		n := 160
 		if tier == "thorough" {
-			n = 3000
+			n = 4000
 		}
 		if casesOverride > 0 && casesOverride < n {
 			n = casesOverride
@@ -576,7 +576,7 @@ func runCheck(prop, tier string, only, casesOverride, budgetOverride int) int {
 		crossN = n
 		if idx >= 0 {
 			sig := prop + "/nondeterministic/across-processes"
-			rp := &Replay{Violation: Violation{Prop: prop, Oracle: "cross-process", Signature: sig, Detail: detail}, Note: "the case is evaluated in two fresh processes that differ in the time at which they start (VERIF_PROC_CLOCK), in the seed of the package-level random generators (VERIF_PROC_RAND) and in GOMAXPROCS"}
+			rp := &Replay{Violation: Violation{Prop: prop, Oracle: "cross-process", Signature: sig, Detail: detail}, Note: "the case is evaluated in several fresh processes that differ in the time at which they start (VERIF_PROC_CLOCK), in the seed of the package-level random generators (VERIF_PROC_RAND) and in GOMAXPROCS"}
 			rp.Case, _ = json.Marshal(map[string]interface{}{"property": prop, "idx": idx, "seed": seed, "tier": tier, "cross_process": map[string]interface{}{"sample": n, "envs": crossEnvs}})
 			a.viols[sig] = rp
 		}
@@ -715,7 +715,7 @@ func runCheck(prop, tier string, only, casesOverride, budgetOverride int) int {
 		"worker_deaths":             len(a.deaths),
 	}
 	if crossN > 0 {
-		cover["cases_compared_across_two_differently_started_processes"] = crossN
+		cover["cases_compared_across_differently_started_processes"] = crossN
 	}
 	ev := map[string]interface{}{
 		"property_id": prop,
@@ -895,22 +895,27 @@ var crossProcessProps = map[string]bool{"C14": true}
 var crossEnvs = [][]string{
 	{"VERIF_PROC_CLOCK=1700000000", "VERIF_PROC_RAND=1", "GOMAXPROCS=2"},
 	{"VERIF_PROC_CLOCK=1893456001", "VERIF_PROC_RAND=7919", "GOMAXPROCS=16"},
+	{"VERIF_PROC_CLOCK=1234567891", "VERIF_PROC_RAND=-5", "GOMAXPROCS=1"},
+	{"VERIF_PROC_CLOCK=4102444806", "VERIF_PROC_RAND=1000003", "GOMAXPROCS=5"},
+	{"VERIF_PROC_CLOCK=946684799", "VERIF_PROC_RAND=42", "GOMAXPROCS=3"},
+	{"VERIF_PROC_CLOCK=2000000002", "VERIF_PROC_RAND=65537", "GOMAXPROCS=8"},
 }
 
 // crossProcess returns the first case of the sample (or the one given) whose
-// hash differs between the two processes, or -1.
+// hash differs between the processes, or -1.
 func crossProcess(bin, prop, tier string, seed uint64, n, only int, extraEnv []string) (int, string, error) {
-	var hs [2]map[int]string
-	var errs [2]error
+	np := 4
+	if tier == "thorough" {
+		np = len(crossEnvs)
+	}
+	hs := make([]map[int]string, np)
+	errs := make([]error, np)
 	var wg sync.WaitGroup
-	W := numWorkers() / 2
-	if W < 1 {
+	W := numWorkers() / np
+	if W < 1 || only >= 0 {
 		W = 1
 	}
-	if only >= 0 {
-		W = 1
-	}
-	for k := 0; k < 2; k++ {
+	for k := 0; k < np; k++ {
 		wg.Add(1)
 		go func(k int) {
 			defer wg.Done()
@@ -933,8 +938,10 @@ func crossProcess(bin, prop, tier string, seed uint64, n, only int, extraEnv []s
 		return -1, "", fmt.Errorf("no case was evaluated")
 	}
 	for _, i := range idx {
-		if hs[0][i] != hs[1][i] {
-			return i, fmt.Sprintf("case %d of a %d-case sample (seed %d, tier %s) gives event-log hash %s in a process started with %v and %s in one started with %v: what gopatch does depends on when or where the process was started", i, n, seed, tier, hs[0][i], crossEnvs[0], hs[1][i], crossEnvs[1]), nil
+		for k := 1; k < np; k++ {
+			if hs[0][i] != hs[k][i] {
+				return i, fmt.Sprintf("case %d of a %d-case sample (seed %d, tier %s) gives event-log hash %s in a process started with %v and %s in one started with %v: what gopatch does depends on when or where the process was started", i, n, seed, tier, hs[0][i], crossEnvs[0], hs[k][i], crossEnvs[k]), nil
+			}
 		}
 	}
 	return -1, "", nil
